@@ -6,6 +6,7 @@ CONSTANTS Pkgs <- P3
  Under <- UnderSib3
  RootPkg = "none"
  HashCoversSum = FALSE
+ SkipUnknown = FALSE
  SaveAlways = TRUE
  KeepAfterDefers = TRUE
  BehChoices <- Beh3
